@@ -782,10 +782,14 @@ class SA:
     def sum(self, axis=None):
         return np_sum(self, axis)
 
-    def max(self, axis=None):
+    def max(self, axis=None, initial=None):
+        if initial is not None:
+            return np_max(SA(rnp.concatenate([self.a.ravel(), _to_obj([initial])]), self.kind), axis)
         return np_max(self, axis)
 
-    def min(self, axis=None):
+    def min(self, axis=None, initial=None):
+        if initial is not None:
+            return np_min(SA(rnp.concatenate([self.a.ravel(), _to_obj([initial])]), self.kind), axis)
         return np_min(self, axis)
 
     def any(self):
@@ -1164,13 +1168,17 @@ def _reduce_minmax(a, f2, name):
     return r
 
 
-def np_max(a, axis=None):
+def np_max(a, axis=None, initial=None):
+    if initial is not None:
+        return (a if isinstance(a, SA) else SA(_to_obj(a))).max(initial=initial)
     if axis is not None:
         raise Unsupported("max(axis)")
     return _reduce_minmax(a, s_max2, "maximum")
 
 
-def np_min(a, axis=None):
+def np_min(a, axis=None, initial=None):
+    if initial is not None:
+        return (a if isinstance(a, SA) else SA(_to_obj(a))).min(initial=initial)
     if axis is not None:
         raise Unsupported("min(axis)")
     return _reduce_minmax(a, s_min2, "minimum")
